@@ -181,7 +181,9 @@ func init() {
 			}
 			key := fmt.Sprintf("loggers=%q root=%s", c.Loggers, c.Root)
 			if c.ViaProp {
-				key += " (tag lists through ${properties})"
+				key += " (tag lists through ${properties}; a named handle exists for logger l0)"
+				// the rules are about the configuration: a handle obtained for a logger's name does not excuse it from listing tags
+				safeCall(func() { log.GetLogger("l0") })
 			}
 			// excluded: the empty-prefix wildcard "_*" and inner-'*' patterns that end in "_*"
 			want, ok := refRoute(c)
